@@ -84,7 +84,7 @@ impl Prop for C20 {
     }
 
     fn runs(tier: Tier) -> u64 {
-        tier.pick(2_500, 200_000)
+        tier.pick(6_000, 400_000)
     }
 
     fn generate(r: &mut Rng, tier: Tier, _idx: u64) -> Scn {
